@@ -135,3 +135,28 @@ func CompareAndSwapUint64(a *uint64, o, n uint64) bool {
 
 	return goatomic.CompareAndSwapUint64(a, o, n)
 }
+
+func LoadPointer(a *unsafe.Pointer) unsafe.Pointer { op("Load", unsafe.Pointer(a)); return goatomic.LoadPointer(a) }
+func StorePointer(a *unsafe.Pointer, v unsafe.Pointer) {
+	op("Store", unsafe.Pointer(a))
+	goatomic.StorePointer(a, v)
+}
+func SwapPointer(a *unsafe.Pointer, v unsafe.Pointer) unsafe.Pointer {
+	op("Swap", unsafe.Pointer(a))
+
+	return goatomic.SwapPointer(a, v)
+}
+func CompareAndSwapPointer(a *unsafe.Pointer, o, n unsafe.Pointer) bool {
+	op("CAS", unsafe.Pointer(a))
+
+	return goatomic.CompareAndSwapPointer(a, o, n)
+}
+func SwapUint32(a *uint32, v uint32) uint32 { op("Swap", unsafe.Pointer(a)); return goatomic.SwapUint32(a, v) }
+func SwapUint64(a *uint64, v uint64) uint64 { op("Swap", unsafe.Pointer(a)); return goatomic.SwapUint64(a, v) }
+func LoadUintptr(a *uintptr) uintptr        { op("Load", unsafe.Pointer(a)); return goatomic.LoadUintptr(a) }
+func StoreUintptr(a *uintptr, v uintptr)    { op("Store", unsafe.Pointer(a)); goatomic.StoreUintptr(a, v) }
+func AddUintptr(a *uintptr, d uintptr) uintptr {
+	op("Add", unsafe.Pointer(a))
+
+	return goatomic.AddUintptr(a, d)
+}
